@@ -335,12 +335,25 @@ class Worker:
         wlock = getattr(outq, '_wlock', None)
         if wlock is None:
             return outq.put((DEATH, (pid, exitcode)))
-        if wlock.acquire(True, timeout):
-            try:
-                outq._writer.send_bytes(
-                    ForkingPickler.dumps((DEATH, (pid, exitcode))))
-            finally:
-                wlock.release()
+        # The parent answers the DEATH message with the termination signal
+        # (ResultHandler.on_death); if this process was already told to
+        # terminate, that signal has its default action again and would
+        # kill it here, holding the write lock.  Keep it pending until
+        # the lock has been released.
+        sigmask = getattr(signal, 'pthread_sigmask', None)
+        blocked = None
+        if sigmask is not None:
+            blocked = sigmask(signal.SIG_BLOCK, [TERM_SIGNAL])
+        try:
+            if wlock.acquire(True, timeout):
+                try:
+                    outq._writer.send_bytes(
+                        ForkingPickler.dumps((DEATH, (pid, exitcode))))
+                finally:
+                    wlock.release()
+        finally:
+            if blocked is not None:
+                sigmask(signal.SIG_SETMASK, blocked)
 
     def on_loop_start(self, pid):
         pass
